@@ -113,6 +113,9 @@ def gen_session(rng, keys, relay, n_msgs, limit, holds=False):
     return msgs
 
 
+REFUSALS = []      # reasons of the OK=false frames seen (diagnostics for replay files)
+
+
 def canon_frames(frames):
     """real frames of one connection -> comparable tuples"""
     out = []
@@ -125,6 +128,8 @@ def canon_frames(frames):
             out.append(("EOSE", f[1]))
         elif f[0] == "OK":
             out.append(("OK", f[1] if f[2] else None, bool(f[2])))
+            if not f[2]:
+                REFUSALS.append(str(f[3])[:200])
         elif f[0] == "NOTICE":
             out.append(("NOTICE",))
         else:
